@@ -41,8 +41,13 @@ pub fn expr(rng: &mut Rng, depth: u32) -> String {
     if depth == 0 {
         return atom(rng);
     }
-    match rng.below(16) {
+    match rng.below(18) {
         0..=3 => atom(rng),
+        // postfix forms applied to a parenthesised compound: the compound's jump lands ON the
+        // subscript / filter that follows (`.attr` is only accepted after identifiers, so a
+        // LoadAttr can never be a jump target in compiled code)
+        16 => format!("({})[0]", expr(rng, depth - 1)),
+        17 => format!("({}) | default(value={})", expr(rng, depth - 1), path(rng)),
         4 => format!("{} and {}", expr(rng, depth - 1), expr(rng, depth - 1)),
         5 => format!("{} or {}", expr(rng, depth - 1), expr(rng, depth - 1)),
         6 => format!("not {}", atom(rng)),
